@@ -89,7 +89,7 @@ def cases(ctx):
         for name in NAMES:
             for v in VARIANTS:
                 nd = rng.choice(NDS.get(name, (1, 2, 2, 3)))
-                shape = [rng.randint(3, 6) for _ in range(nd)]
+                shape = [rng.choice([2, 3, 3, 3, 4, 5, 6]) for _ in range(nd)]    # sides at and below the window sizes (3) are frequent
                 # content for which the function may have "nothing to do" (no region on the border, nothing to erode, constant
                 # signal): the complete result must still be written into out
                 yield {"fn": name, "variant": v, "shape": shape, "seed": rng.randrange(1 << 30),
